@@ -56,7 +56,12 @@ func lineBytes(src string) []string {
 // The line after the last one (lines+1) is granted column 1 only. (A position between the CR and
 // the LF of a CRLF pair is, in otto's arithmetic, column 1 of the next line, which is inside.)
 func CheckPosition(src string, line, col int) string {
-	lens := Lines(src)
+	return CheckPositionIn(Lines(src), line, col)
+}
+
+// CheckPositionIn is CheckPosition with the line table computed once (an input may come with
+// tens of thousands of errors; building the table per error made the check quadratic).
+func CheckPositionIn(lens []int, line, col int) string {
 	if line < 1 || line > len(lens)+1 {
 		return fmt.Sprintf("line %d is outside 1..%d (the text has %d lines)", line, len(lens)+1, len(lens))
 	}
